@@ -255,6 +255,16 @@ pub fn parse_cmd(s: &Sexp) -> Option<Cmd> {
 
 // ---------------------------------------------------------------- interpreter (command API)
 
+/// can this block be rendered with the legacy capability API (no join handles, no abort handles)?
+pub fn legacy_expressible(is: &[Instr]) -> bool {
+    is.iter().all(|i| match i {
+        Instr::Await(_) | Instr::Abort(_) | Instr::AbortCmd(_) => false,
+        Instr::Stream(_, _, _, _, body, _) | Instr::Spawn(_, body) => legacy_expressible(body),
+        Instr::Join(a, b) | Instr::Select(a, b) => legacy_expressible(a) && legacy_expressible(b),
+        _ => true,
+    })
+}
+
 /// a `JoinHandle` (the type lives in a private module and cannot be named): type-erased operations on it
 #[derive(Clone)]
 pub struct Handle {
